@@ -393,6 +393,12 @@ func exec(c *core.Ctx, cs Case) {
 		if !mutating {
 			continue
 		}
+		// "shares no state": the node sets of all handles are disjoint and each is a tree (white-box, read-only);
+		// checked first, because walking a shared or cyclic structure need not terminate
+		if msg := disjointTrees(c, ts, len(ref)); msg != "" {
+			fail(i, "tree handles share state", msg)
+			break
+		}
 		// probes after a mutating op (not part of the Coq case): full read of every handle
 		for g := range ref {
 			s, msg := probe(c, ts, g, ref[g], cs.Elem)
@@ -552,6 +558,38 @@ func sameMultiset(a, b []int) bool {
 		}
 	}
 	return true
+}
+
+// disjointTrees walks the node pointers of every handle by reflection: no node may be reached twice,
+// neither inside one handle (cycle / shared subtree) nor from two handles (a clone sharing nodes).
+func disjointTrees(c *core.Ctx, ts avlh.Trees, n int) (msg string) {
+	defer func() {
+		if recover() != nil {
+			c.Count("structure_probe_unavailable")
+			msg = ""
+		}
+	}()
+	owner := map[uintptr]int{}
+	for g := 0; g < n; g++ {
+		stack := []reflect.Value{reflect.ValueOf(ts.Root(g)).Elem().FieldByName("root")}
+		for len(stack) > 0 {
+			cur := stack[len(stack)-1]
+			stack = stack[:len(stack)-1]
+			if cur.IsNil() {
+				continue
+			}
+			p := cur.Pointer()
+			if o, seen := owner[p]; seen {
+				if o == g {
+					return fmt.Sprintf("handle %d: a node is reachable along two paths (not a tree)", g)
+				}
+				return fmt.Sprintf("handles %d and %d share a node", o, g)
+			}
+			owner[p] = g
+			stack = append(stack, cur.Elem().FieldByName("left"), cur.Elem().FieldByName("right"))
+		}
+	}
+	return ""
 }
 
 // removesTwoChildrenNode looks (by reflection, read-only) at the node that
